@@ -588,7 +588,7 @@ func TestMutators(t *testing.T) {
 
 func TestFabricated(t *testing.T) {
 	r := ev.New(t, prop, "TestFabricated")
-	r.Rule("triples that satisfy the verification equation by construction for EVERY supported height 4..30 and indices up to 2^h-1 (WOTS key at the index derived from drawn key material, arbitrary authentication siblings, root = what the path hashes to; no tree is built): the library must accept them, and must reject each after one drawn corruption; the same for Winternitz parameters 4 and 256 through VerifyWithCustomWOTSParamW (reference = the RFC 8391 parameter and checksum formulas instantiated for that w), including a flipped bit in a checksum chain and the one-bit-off root; non-trivial = every case (heights 10..30 are unreachable with real keys), distinct by (hash,h,index,variant)")
+	r.Rule("triples that satisfy the verification equation by construction for EVERY supported height 4..30 and indices up to 2^h-1 (WOTS key at the index derived from drawn key material, arbitrary authentication siblings, root = what the path hashes to; no tree is built): the library must accept them, and must reject each after one drawn corruption; consistent triples for the non-existent heights 0 and 2 must not be accepted; the same for Winternitz parameters 4 and 256 through VerifyWithCustomWOTSParamW (reference = the RFC 8391 parameter and checksum formulas instantiated for that w), including a flipped bit in a checksum chain and the one-bit-off root; non-trivial = every case (heights 10..30 are unreachable with real keys), distinct by (hash,h,index,variant)")
 	checks := r.PerShard(r.Pick(500, 12000))
 	r.Rapid(t, "fab", checks, func(rt *rapid.T) {
 		hf := rapid.SampledFrom(pu.Hashes).Draw(rt, "hash")
@@ -662,6 +662,21 @@ func TestFabricated(t *testing.T) {
 		pk3 = append(pk3, mat[32:64]...)
 		report(rt, r, &triple{Class: "fabricated-root-one-bit-off", Detail: fmt.Sprintf("%s: WOTS chains, L-tree and path all consistent, claimed root differs from the recomputed root in bit %d only", tag, tb), Expect: "reject", Msg: msg, Sig: sig3, PK: pk3})
 		r.NonTrivial(uint(hf), h, idx, "root-bit", tb)
+		// a triple that is CONSISTENT (chains, L-tree, path and root all fit) for a height the scheme does not have:
+		// 2 (a two-level tree; the traversal needs h > 2) and 0 (the root is the leaf). Garbage at these heights is
+		// refused by everybody; only a consistent triple shows whether the height itself is refused.
+		if rapid.IntRange(0, 3).Draw(rt, "unsupportedHeight") == 0 {
+			uh := rapid.SampledFrom([]int{2, 2, 0}).Draw(rt, "uh")
+			uidx := uint32(0)
+			if uh == 2 {
+				uidx = uint32(rapid.IntRange(0, 3).Draw(rt, "uidx"))
+			}
+			usig, uroot := xmssref.Fabricate(pu.RefHash(hf), uh, uidx, msg, mat[0:32], mat[32:64], mat[64:96], sibs[:uh], -1)
+			upk := append(append([]byte{byte(hf), byte(uh / 2), 0}, uroot...), mat[32:64]...)
+			report(rt, r, &triple{Class: "fabricated-consistent-at-unsupported-height", Detail: fmt.Sprintf("fabricated %s h=%d idx=%d: everything fits, but the height is not one the scheme has", pu.HashName(hf), uh, uidx), Expect: "reject", Msg: msg, Sig: usig, PK: upk})
+			r.NonTrivial(uint(hf), "unsupported-height", uh, uidx, []byte(msg))
+			r.Count(fmt.Sprintf("fabricated_unsupported_height_%d", uh), 1)
+		}
 		// the other two Winternitz parameters the verifier offers (nothing in the library signs with them): a
 		// fabricated valid triple, one corruption, and the claimed root one bit off
 		w := rapid.SampledFrom([]uint32{4, 256}).Draw(rt, "w")
